@@ -244,6 +244,8 @@ func asm14RealExec(c *Ctx, op string) {
 		"w2": {d(""), fl("file2", "two"), ln("abs", sandboxOutside), d("sub"), d("sub/deeper")},
 		"w3": {d(""), ln("up", "../.."), fl("file3", "three")},
 		"w4": {d(""), fl("file4", "four"), Entry{Name: "shared", Kind: 'd', Perms: 02775, Uid: 7, Gid: 7, Sec: 1e9}},
+		// w5 is requested with an altering unpack filter (owner and mtime forced): it is shelved under the filtered id
+		"w5": {d(""), fl("file5", "five"), d("d5"), fl("d5/inner5", "i5")},
 	}
 	{
 		acc := ""
@@ -282,7 +284,11 @@ func asm14RealExec(c *Ctx, op string) {
 			if x.kind == "ro" || x.kind == "rw" {
 				w = api.WareID{Type: "mount", Hash: x.kind + ":" + host}
 			}
-			specs = append(specs, stitch.UnpackSpec{Path: fs.MustAbsolutePath(x.path), WareID: w, Filters: api.FilesetUnpackFilter_Lossless,
+			filt := api.FilesetUnpackFilter_Lossless
+			if x.kind == "w5" {
+				filt = api.MustParseFilesetUnpackFilter("uid=1234,gid=2345,mtime=@4321,sticky=follow,setid=follow,dev=follow")
+			}
+			specs = append(specs, stitch.UnpackSpec{Path: fs.MustAbsolutePath(x.path), WareID: w, Filters: filt,
 				Warehouses: []api.WarehouseLocation{whAddr("ca", whDir)}})
 		}
 		var cleanup func() error
@@ -442,7 +448,7 @@ func asm14RealExec(c *Ctx, op string) {
 			get["/"+e.Name] = e
 		}
 		for _, a := range ins {
-			marker := map[string]string{"w0": "file0", "w1": "file1", "w2": "file2", "w3": "file3", "w4": "file4", "ro": "hostfile", "rw": "hostfile"}[a.kind]
+			marker := map[string]string{"w0": "file0", "w1": "file1", "w2": "file2", "w3": "file3", "w4": "file4", "w5": "file5", "ro": "hostfile", "rw": "hostfile"}[a.kind]
 			p := strings.TrimSuffix(a.path, "/") + "/" + marker
 			covered := false
 			for _, b := range ins {
@@ -450,8 +456,15 @@ func asm14RealExec(c *Ctx, op string) {
 					covered = true
 				}
 			}
-			if _, ok := get[p]; !ok && !covered {
+			e, ok := get[p]
+			if !ok && !covered {
 				c.PropFail("asm-shadowing", fmt.Sprintf("the content of input %s (%s) is not visible at its path", a.path, a.kind), op)
+			}
+			if ok && !covered && a.kind == "w5" && (e.Uid != 1234 || e.Gid != 2345 || e.Sec != 4321) {
+				c.PropFail("asm-shadowing", fmt.Sprintf("input %s was requested with owner 1234:2345 and mtime 4321 forced, the assembly shows %d:%d @%d", a.path, e.Uid, e.Gid, e.Sec), op)
+			}
+			if ok && !covered && a.kind == "w0" && (e.Uid != 7 || e.Gid != 7 || e.Sec != 1e9) {
+				c.PropFail("asm-shadowing", fmt.Sprintf("input %s was requested lossless (7:7 @1e9), the assembly shows %d:%d @%d", a.path, e.Uid, e.Gid, e.Sec), op)
 			}
 		}
 		if e, ok := get["/pre/existing"]; ok && e.Sec != 1200000000 {
@@ -683,6 +696,7 @@ func asm14Engine(c *Ctx) {
 		"/=w4,/shared/new/deeper/m=w0", "/=w4,/shared/new/m=ro", "/a=w4,/a/shared/x/y=w1",
 		// a symlink higher up the parent chain whose remaining chain exists behind the link (relative / absolute, re-rooted)
 		"/=w1,/lnk/deep/x=w0", "/=w1,/lnk/deep/er/x=w0", "/=w2,/abs/osub/x=w0", "/a=w1,/a/lnk/deep/x=w0", "/=w1,/lnk/deep/x=ro",
+		"/=w5", "/=w0,/d/x=w5", "/a=w5,/a/d5/y=w0,/b=w5",
 		"/=w1,/lnk=w0", "/=w1,/lnk=ro", "/=w1,/lnk=rw", "/=w2,/abs=w0", "/=w2,/abs=rw", "/=w3,/up=ro", "/a=w1,/a/lnk=rw", "/a=w2,/a/abs=ro",
 	}
 	for _, rc := range realCorpus {
@@ -695,7 +709,7 @@ func asm14Engine(c *Ctx) {
 	}
 	asm14ReuseExec(c, "asm14 reuse real-then-link")
 	asm14ReuseExec(c, "asm14 reuse filler-twice")
-	kinds := []string{"w0", "w1", "w2", "w3", "w0", "w1", "ro", "rw"}
+	kinds := []string{"w0", "w1", "w2", "w3", "w0", "w1", "ro", "rw", "w5"}
 	rpool := []string{"/", "/a", "/ab", "/a/b", "/d", "/d/x", "/lnk/x", "/abs/y", "/up/z", "/lnk", "/abs", "/up", "/sub/deeper/q", "/a/lnk/k", "/lnk/deep/x", "/abs/osub/y", "/lnk/deep/er/z", "/pre/existing/n", "/data", "/data-extra", "/data/sub"}
 	for k := 0; k < nReal; k++ {
 		n := 1 + c.Intn(4)
